@@ -261,7 +261,8 @@ def run(tier, seed):
         outcomes["scale: " + klass(cs["impl"])] += 1
         if cs["impl"].startswith(("panic", "crash", "timeout")) or not cs["impl"]:
             bad.append(cs)
-    refs = run_scale(reference_cases(root), limit=20)
+    # ... and the hand-written corpus (shapes the generator does not produce), each in its own process: read AND write must return
+    refs = run_scale(reference_cases(root) + [dict(cs, meta={"features": "corpus " + cs["meta"]["corpus"]}) for cs in st.verif_corpus_cases(os.path.join(root, "vc"))], limit=20)
     for cs in refs:
         outcomes["refs: " + klass(cs["impl"])] += 1
         if cs["impl"].startswith(("panic", "crash", "timeout")) or not cs["impl"]:
